@@ -261,6 +261,8 @@ func (e *Enc) dryRun(f *frame, li *loopInfo, order []*ssa.BasicBlock) (map[*ssa.
 	nerrs := len(e.errs)
 
 	e.dry++
+	e.loopDry++
+	npairs := len(e.seqPairs)
 	e.writesC, e.writesV = map[*ssa.Alloc]bool{}, map[string]bool{}
 	st := e.cur.clone()
 	for c, old := range st.cells {
@@ -286,6 +288,8 @@ func (e *Enc) dryRun(f *frame, li *loopInfo, order []*ssa.BasicBlock) (map[*ssa.
 
 	wc, wv := e.writesC, e.writesV
 	e.dry--
+	e.loopDry--
+	e.seqPairs = e.seqPairs[:npairs]
 	e.lines = e.lines[:nlines]
 	e.cur, e.reach = savedCur, savedReach
 	f.ins = savedIns
